@@ -29,6 +29,7 @@ func runC04(w *World) *Result {
 	c04SrcOrder(w, r)
 	r.Rule("R-C04-eager", "the branches of an if-chain hold the block parser's results: no later branch is nested into an earlier one (all conditions are evaluated with the chain)", 3)
 	c04Bodies(w, r, "R-C04-eager")
+	r.Rule("R-C04-instance", "every loop instance has a flag / label name of its own (a name shared with a loop in a called function makes the increment run zero or two times)", 4)
 	for _, role := range []string{"bash", "batch"} {
 		b, err := BuildBackend(w, role)
 		if err != nil {
@@ -36,6 +37,7 @@ func runC04(w *World) *Result {
 			continue
 		}
 		c04Immediate(w, b, r)
+		AllocRule(w, b, r, "R-C04-instance")
 	}
 	return r
 }
